@@ -143,7 +143,7 @@ def gen_seq(g, depth, nown, ninh, fresh, steps, in_with, handler=False):
     if a == "lazy":
         out = ["ok", rng.randint(0, 9)]
         if g.err and g.lazy_err and rng.random() < 0.3:
-            out = ["err", rng.randint(1, 3)]
+            out = ["err", rng.randint(1, 2)]
         return ["lazy", out, nxt(nown + 1, fresh + [nown])]
     if a == "yld":
         y = gen_y(g, nown, ninh, fresh)
@@ -278,6 +278,13 @@ def gen_case(rng, profile="full", size=None, ntops=1):
             kc["raises"] = True
         if kc:
             cfg["kinds"][str(k)] = kc
+    if rng.random() < 0.15:
+        # user get_priority() overrides returning plain ints, 0 (falsy) among them
+        cfg["intprio"] = True
+        for k in range(kinds):
+            cfg["kinds"][str(k)] = dict(cfg["kinds"].get(str(k), {}), prio=["const", rng.randint(0, 3)])
+    if rng.random() < 0.1:
+        cfg["keepDeps"] = True      # KEEP_DEPENDENCIES is part of 'configurations'
     tops = []
     for _ in range(ntops):
         g = G(rng, budget=size if size is not None else rng.choice([4, 8, 12, 20, 30, 45]), kinds=kinds,
@@ -478,3 +485,18 @@ def override_family(rng):
             return ["yld", b[1], ["read", var, ["endwith"]], ["reraise"]]
         body = ["with", ["override", var, 7], patch(body[2]), ["read", var, ["ret", 8]]]
     return {"cfg": {"kinds": {}, "salt": rng.randrange(1000000)}, "profile": "override-family", "tops": [[rng.choice(["value", "call"]), body]]}
+
+
+def foreign_sync_family(rng):
+    """a task computes synchronously (value()) a task that somebody else created, then looks at get_active_task():
+    the active task must be restored to the caller, not to the creator of the finished task (C08)"""
+    leaf = rng.choice([["ret", 1], ["item", 0, 1, "ok", ["yld", ["f", ["own", 0]], ["ret", 1], ["reraise"]]],
+                       ["active", ["ret", 2]], ["raise", 1]])
+    after = ["active", ["spawn", ["active", ["ret", 3]], [], ["yld", ["f", ["own", 0]], ["active", ["ret", 4]], ["reraise"]]]]
+    caller = ["active", ["syncfut", ["inh", 0], after, after]]
+    depth = rng.randint(0, 2)
+    for _ in range(depth):      # hand the foreign task further down before it is computed
+        caller = ["spawn", caller, [["inh", 0]], ["yld", ["f", ["own", 0]], ["active", ["ret", 5]], ["reraise"]]]
+    body = ["spawn", leaf, [], ["spawn", caller, [["own", 0]],
+            ["yld", rng.choice([["f", ["own", 1]], ["tup", ["f", ["own", 1]], ["f", ["own", 0]]]]), ["active", ["ret", 6]], ["active", ["ret", 7]]]]]
+    return {"cfg": {"kinds": {}, "salt": rng.randrange(1000000)}, "profile": "foreign-sync", "tops": [[rng.choice(["value", "call"]), body], ["value", ["active", ["ret", 0]]]]}
